@@ -316,7 +316,12 @@ fn apply_muts(c: &CCase, p: &mut Parts) -> bool {
                 true
             }
             14 => {
-                p.subdenom = BAD_DENOM[arg as usize % BAD_DENOM.len()].to_string();
+                p.subdenom = match kind % 4 {
+                    // legal: exactly the longest sub-denom a token factory accepts, and one more
+                    0 => "a".repeat(44),
+                    1 => "b".repeat(45),
+                    _ => BAD_DENOM[arg as usize % BAD_DENOM.len()].to_string(),
+                };
                 true
             }
             15 => {
